@@ -423,7 +423,57 @@ def check_gp_in_step_evaluation(h: Harness):
                    f"{len(registered)} announced)", {"keys": keys, "pop": pop, "n": n, "step": stepname})
 
 
+def check_parallel_search(h: Harness):
+    """real tree programs of different sizes, neighbourhoods evaluated as ONE batch on the parallel evaluator (hill
+    climbing): the returned individual is at least as good as every program the fitness function was called on, and its
+    recorded fitness is the fitness of ITS program"""
+    import os
+    import tempfile
+    import pargrammar
+    import synth
+    from geneticengine.algorithms.hill_climbing import HC
+    from geneticengine.evaluation.parallel import ParallelEvaluator
+    from geneticengine.representations.tree.treebased import TreeBasedRepresentation
+    g = pargrammar.grammar()
+    fd, path = tempfile.mkstemp(prefix="c12-ff.")
+    os.close(fd)
+    os.environ["VERIF_FF_LOG"] = path
+    try:
+        for trial in range(h.n(3, 12)):
+            for minimize in (False, True):
+                open(path, "w").close()
+                r = NativeRandomSource(1000 + trial)
+                rep = TreeBasedRepresentation(g, synth.make_decider("grow", 5, r, g))
+                problem = SingleObjectiveProblem(pargrammar.ff_report, minimize=minimize)
+                tracker = SingleObjectiveProgressTracker(problem, ParallelEvaluator())
+                desc = f"HC(number_of_mutations=4, EvaluationBudget(12)) on the ParallelEvaluator, tree programs, minimize={minimize}, seed {1000 + trial}"
+                try:
+                    ret = HC(problem, EvaluationBudget(12), rep, r, tracker, number_of_mutations=4).search()
+                except Exception as e:  # noqa: BLE001
+                    h.fail("HC.search[ParallelEvaluator]", "raises", f"{desc}: raised {type(e).__name__}: {e}", [trial, minimize])
+                    continue
+                with open(path) as f:
+                    seen_vals = [float(len(ln.strip())) for ln in f if ln.strip()]
+                h.count("search:HC:parallel-evaluator")
+                h.seen(f"par-search:{trial}:{minimize}", nontrivial=len(set(seen_vals)) >= 2)
+                rv = ret.get_fitness(problem).fitness_components[0]
+                own = pargrammar.ff_plain(ret.get_phenotype())
+                if rv != own:
+                    h.fail("HC.search[ParallelEvaluator]", "returned-fitness-not-of-its-program",
+                           f"{desc}: the returned individual carries fitness {rv}, its program evaluates to {own}", [trial, minimize])
+                    continue
+                best_seen = min(seen_vals) if minimize else max(seen_vals)
+                if (best_seen < rv) if minimize else (best_seen > rv):
+                    h.fail("HC.search[ParallelEvaluator]", "evaluated-program-better-than-returned",
+                           f"{desc}: a program with fitness {best_seen} was evaluated, search() returned one with fitness {rv} "
+                           f"({len(seen_vals)} evaluations)", [trial, minimize])
+    finally:
+        os.environ.pop("VERIF_FF_LOG", None)
+        os.unlink(path)
+
+
 def run(h: Harness):
+    check_parallel_search(h)
     check_gp_in_step_evaluation(h)
     check_single_histories(h)
     check_multi_histories(h)
